@@ -12,7 +12,7 @@ RULE = ("mode 1: KeyExchange::modexp on boundary and random operands (base 0,1,p
         "real Nodes built from generated identity seeds and peer ids handshake with each other through "
         "generate_handshake_work / perform_handshake and both session keys are read back (the scalars the nodes drew are "
         "predicted by a python mt19937 + libstdc++ uniform_int_distribution and read back through the friend class); mode 4: "
-        "validate_public around 0,1,2,p-1,p,p+1,2^32-1; mode 5: derive_shared_secret with remote publics >= p (reduction). "
+        "validate_public around 0,1,2,p-1,p,p+1,2^32-1; mode 5: derive_shared_secret with remote publics >= p (reduction); mode 6: a node handshakes with a peer, the peer restarts under the same peer id with a new identity seed and, an hour later (past the cool-down), both handshake again. "
         "Oracle (independent of the model): python pow(), hashlib, hmac -- publics are 5^a mod p, both ends hold the same key, "
         "the key is HMAC(SHA256(be32(5^(ab) mod p)), be32(min pub) || be32(max pub)), validate accepts exactly 1 < c < p. "
         "non-trivial = modes 2/3 with both publics valid; distinct = distinct implementation outputs")
@@ -95,6 +95,11 @@ def generate(rng, tier):
             cases.append({"ints": [5, rng.getrandbits(32), rng.choice([P, P + 1, 2 ** 32 - 1, rng.getrandbits(32)]), rng.getrandbits(32)], "tag": "derive"})
         elif r < 0.75:
             cases.append({"ints": [4, rng.getrandbits(32)], "tag": "validate"})
+        elif r < 0.85:
+            sa, sb, sb2 = rng.getrandbits(32), rng.getrandbits(32), rng.getrandbits(32)
+            ida = [rng.randrange(256) for _ in range(32)]
+            idb = [rng.randrange(256) for _ in range(32)]
+            cases.append({"ints": [6, draw_scalar(sa), draw_scalar(sb), draw_scalar(sb2), sa, sb, sb2] + ida + idb, "tag": "rehandshake"})
         else:
             sa, sb = rng.getrandbits(32), rng.getrandbits(32)
             if rng.random() < 0.1:
@@ -151,6 +156,18 @@ def judge(case, impl, model):
         if ka != skey(a, pa, pb):
             return {"fail": "C12|key-is-not-hmac-of-dh-and-both-publics"}
         return {"nontrivial": bool(va and vb)}
+    if mode == 6:
+        if impl[:1] in ([-8], [-9]):
+            return {"fail": "C12|valid-handshake-rejected"}
+        a, b, b2 = impl[:3]
+        if [a, b, b2] != ints[1:4]:
+            return {"fail": "C12|scalar-prediction-differs-from-node (checker's mt19937 or the node's key generation changed)"}
+        ka, kb = impl[3:35], impl[35:67]
+        if ka != kb:
+            return {"fail": "C12|ends-hold-different-keys|after-rehandshake"}
+        if ka != skey(a, pow(G, a, P), pow(G, b2, P)):
+            return {"fail": "C12|key-is-not-hmac-of-dh-and-both-publics|after-rehandshake"}
+        return {"nontrivial": True}
     if mode == 4:
         if impl != [int(1 < ints[1] < P)]:
             return {"fail": "C12|validate-public-wrong"}
